@@ -460,7 +460,15 @@ class MementoFunction(MementoFunctionBase):
             entry = MementoFunction._global_fn_version_cache[
                 self.qualified_name_without_version
             ]
-            if entry.as_of_generation == MementoFunction._global_fn_generation:
+            if (
+                entry.as_of_generation == MementoFunction._global_fn_generation
+                and self._hash_rules
+                and self._calculated_version == entry.version
+            ):
+                # (Only trust the cache entry if it is this object's own: it needs hash
+                # rules of its own to check the entry against, and an entry written by
+                # another object wrapping a function of the same name - an unregistered
+                # wrapper - says nothing about when this object last computed its version.)
                 changed_rules = [rule for rule in self._hash_rules if rule.did_change()]
                 if len(changed_rules) > 0:
                     # Global variables or local functions may have changed since the last time
